@@ -13,8 +13,8 @@ OPS = ['S', 'G', 'L', 'Ms', 'Mg', 'Ml', 'Qs', 'Qg', 'Ql', 'O']
 RULE = ('Op alphabet (10): find_slices, find_groups, find_layers, metarize(slices|groups|layers), '
         'metar_msg(slices|groups|layers) and a read-only observe op (n_slices/n_groups/n_layers, max_hits_per_layer, '
         'ceilos, data_rescaled()). (a) Exhaustive call tree over all sequences up to depth 4 (quick) / 5 (thorough) by DFS '
-        'with deep-copied chunks on fixed data sets: one where groups merge, one where a group splits in two layers, one '
-        'without any valid hit (+ the canonical demo data in thorough); (b) Hypothesis-drawn sequences of up to 14 ops on '
+        'with deep-copied chunks on fixed data sets: one where groups merge, one where a group splits in two layers, one where a '
+        'group splits in three below a two-valued deck, one without any valid hit (+ the canonical demo data in thorough); (b) Hypothesis-drawn sequences of up to 14 ops on '
         'generated merge_chain / split_candidate / layered / degenerate scenes with generated parameters, executed on '
         'fresh chunks. Oracle = stage model with references snapshotted from one canonical run after each stage: a call '
         'may raise AmpycloudError only when the model says a prerequisite is missing or the call would rewrite the '
@@ -53,6 +53,17 @@ def dataset(name):
         for i in range(0, 45, 3):
             rows.append(['b', -899.0 + 20 * i, 9000.0, 1])
         return {'rows': rows, 'prms': {}}
+    if name == 'split3':
+        # a lower deck made of three thin sub-layers 300 ft apart (one group, split in three) below a quantised
+        # deck holding exactly two distinct heights (>= 30 hits): the two groups go through different paths of
+        # the layering step
+        for i in range(48):
+            dt = -940.0 + 20 * i
+            rows.append(['a', dt, 1000.0 + (i * 13) % 40, 1])
+            rows.append(['a', dt, 1300.0 + (i * 17) % 40, 2])
+            rows.append(['a', dt, 1600.0 + (i * 7) % 40, 3])
+            rows.append(['b', dt + 3, 6000.0 + 10 * (i % 2), 1])
+        return {'rows': rows, 'prms': {'MIN_SEP_VALS': [100, 1000]}}
     if name == 'nohits':
         return {'rows': [['a', -900.0 + 60 * i, None, 0] for i in range(10)], 'prms': {'MSA': 5000}}
     if name == 'demo':
@@ -64,7 +75,8 @@ def dataset(name):
     raise ValueError(name)
 
 
-DATASETS = {'quick': ['merging', 'splitting', 'nohits'], 'thorough': ['merging', 'splitting', 'nohits', 'demo']}
+DATASETS = {'quick': ['merging', 'splitting', 'split3', 'nohits'],
+            'thorough': ['merging', 'splitting', 'split3', 'nohits', 'demo']}
 
 
 # ------------------------------------------------------------------------------------------------
